@@ -96,15 +96,19 @@ def handle (args : List String) (impl : String) : Verdict :=
     match parseTy t >>= fun T => (parseVal T v).map (fun x => (T, x)), parseCps ps, parseCps es with
     | some (T, x), some ps, some es =>
       let d := decode num T { points := ps, edgePoints := es } x
-      let ok := !impl.startsWith "PANIC" && !impl.startsWith "HANG"
-      { model := decOut d, spec := some ok, note := if ok then "" else "class=decode-panic" }
+      let noPanic := !impl.startsWith "PANIC" && !impl.startsWith "HANG"
+      let ok := noPanic && impl == decOut d
+      { model := decOut d, spec := some ok, note := if ok then "" else if !noPanic then "class=decode-panic" else "class=decode-outcome-differs" }
     | _, _, _ => bad "C11 dec"
   | ["mrg", t, v, ps] =>
     match parseTy t >>= fun T => (parseVal T v).map (fun x => (T, x)), parseCps ps with
     | some (T, x), some ps =>
       let m := match mergePoints num T x.id ps x with | some d => decOut d | none => "nomatch"
-      let ok := !impl.startsWith "PANIC" && !impl.startsWith "HANG"
-      { model := m, spec := some ok, note := if ok then "" else "class=decode-panic" }
+      -- "either updates the value or returns an error; it never panics": no panic, and the outcome (ok / error and the
+      -- value left behind) is the one the verified model of Decode / Merge gives
+      let noPanic := !impl.startsWith "PANIC" && !impl.startsWith "HANG"
+      let ok := noPanic && impl == m
+      { model := m, spec := some ok, note := if ok then "" else if !noPanic then "class=decode-panic" else "class=decode-outcome-differs" }
     | _, _ => bad "C11 mrg"
   | ["mre", t, v, sel, ps] =>
     match parseTy t >>= fun T => (parseVal T v).map (fun x => (T, x)), parseCps ps with
@@ -113,8 +117,11 @@ def handle (args : List String) (impl : String) : Verdict :=
       let id := if sel == "i" then x.id ++ other else if sel == "e" then [] else x.id
       let parent := if sel == "p" then x.parent ++ other else if sel == "n" then [] else x.parent
       let m := match mergeEdgePoints num T id parent ps x with | some d => decOut d | none => "nomatch"
-      let ok := !impl.startsWith "PANIC" && !impl.startsWith "HANG"
-      { model := m, spec := some ok, note := if ok then "" else "class=decode-panic" }
+      -- "either updates the value or returns an error; it never panics": no panic, and the outcome (ok / error and the
+      -- value left behind) is the one the verified model of Decode / Merge gives
+      let noPanic := !impl.startsWith "PANIC" && !impl.startsWith "HANG"
+      let ok := noPanic && impl == m
+      { model := m, spec := some ok, note := if ok then "" else if !noPanic then "class=decode-panic" else "class=decode-outcome-differs" }
     | _, _ => bad "C11 mre"
   | ["dm", t, a, b] =>
     match parseTy t >>= fun T => (parseVal T a).bind (fun x => (parseVal T b).map (fun y => (T, x, y))) with
